@@ -135,6 +135,15 @@ pub fn emit(seed: u64, n: usize, lo: i64, hi: i64, max_n: usize) {
                             26.104698374152342, 1.4516219416302045, 27.556320315782546, 1.4516219416302045, 27.556320315782546, 0.0, 22.556320315782546, 0.0];
                 name = "known_finding_witness_chamfer_reversed".to_string();
             }
+            // the first two sweeps of every run follow an L-shaped path (a long leg, then a shorter one at a right angle, in the
+            // plane and out of it): the last chord is perpendicular to the overall displacement, so an end cap projected along
+            // anything but the last chord's own direction collapses
+            if *op == 404 && count < 2 * ops.len() {
+                let pl = args[2] as usize; let prof: Vec<f64> = args[4..4 + 2 * pl].to_vec();
+                let path: [f64; 9] = if count < ops.len() { [0.0, 0.0, 0.0, 30.0, 0.0, 0.0, 30.0, 10.0, 0.0] } else { [0.0, 0.0, 0.0, -30.0, 0.0, 0.0, -30.0, 0.0, 10.0] };
+                let mut v = vec![args[0], 0.0, pl as f64, 3.0]; v.extend(prof); v.extend(path); args = v;
+                name = format!("{} on an L-shaped path", name);
+            }
             clear_trig();
             let a2 = args.clone(); let o = *op;
             let res = catch(move || run(o, &a2));
